@@ -29,6 +29,7 @@ gzip / lz4 / zstd: the wrappers only pool and Reset library objects — correspo
 -/
 import KafkaVerif.Lemmas.Xerial
 import KafkaVerif.Lemmas.Pool
+import KafkaVerif.Gen.RecordConsts
 
 namespace KV.Props.C16
 open KV KV.RW KV.Model.Xerial KV.Spec.Xerial
@@ -147,6 +148,11 @@ theorem xerial_unframed_single (c : Codec) (chunks : List Bytes) (hne : chunks.f
 the recycled object was left in (mid-stream, after an error, after EOF), Reset gives the state of a new one. -/
 theorem reset_fresh (s : Bytes) (framed : Bool) (r : Reader) (w : Writer) :
     resetReader s r = newReader s ∧ resetWriter framed w = newWriter framed := ⟨rfl, rfl⟩
+
+/-- the model's block capacity and flush threshold are the constants in compress/snappy/xerial.go now
+(regenerated by `go/extract records` on every run) -/
+theorem gen_xerial_consts :
+    blockCap = Gen.RecordConsts.xerialBlockSize ∧ slack = Gen.RecordConsts.xerialSlack := ⟨rfl, rfl⟩
 
 /-! ## pool protocol (all codecs): acquire → Reset → use → Close (idempotent) → Put -/
 
